@@ -195,6 +195,7 @@ type descJSON struct {
 	Size         int64             `json:"size"`
 	Annotations  map[string]string `json:"annotations,omitempty"`
 	ArtifactType string            `json:"artifactType,omitempty"`
+	URLs         []string          `json:"urls,omitempty"`
 }
 
 func digestOf(algo string, b []byte) string {
@@ -288,7 +289,12 @@ func materialise(objs []*Obj) {
 				if mt == "" {
 					mt = t.descMT()
 				}
-				return descJSON{MediaType: mt, Digest: t.digest(o.RefAlgo), Size: int64(len(t.data))}
+				d := descJSON{MediaType: mt, Digest: t.digest(o.RefAlgo), Size: int64(len(t.data))}
+				if t.Kind == "blob" && t.DescMT != "" {
+					// a layer "not to be distributed": its own media type and a place to fetch it from
+					d.MediaType, d.URLs = t.DescMT, []string{"https://example.com/layers/" + t.digest("sha256")[7:19]}
+				}
+				return d
 			}
 			if o.Kind == "image" {
 				cmt := o.ConfigMT
